@@ -17,51 +17,51 @@ CLAIMS = {
              "every call returns ok (c01_calls_ok); chunk limits are invisible (c01_chunking_invisible). Correspondence and "
              "reference-log oracle on ret/st/read/iter over generated legal histories with all chunk-limit classes.",
              technique="Lean 4 refinement proof to a reference log (invariant + induction over histories) + correspondence/oracle",
-             ref="7 C01"),
+             ref="8 C01"),
  "C12": dict(text="Codec round trip, canonicity, prefix=>eof and totality proved for all records and all byte strings "
              "(Props/C12.lean); the model codec is compared with the public codeq Encode/Decode of WALRecord on "
              "generated records, every-prefix, one-byte mutations and arbitrary bytes.",
              technique="Lean 4 theorems (compositional codec lemmas) + differential correspondence of encode/decode",
-             ref="7 C12"),
+             ref="8 C12"),
  "C06": dict(text="Model-level theorems: a call that returns a validation error returns the whole store unchanged and "
              "emits no effect; same state => same verdict as the reference log. Correspondence + reference-log "
              "oracle on rejected calls at every point of generated histories, cache statistics bracketed, then "
              "flush/restart.",
              technique="Lean 4 step lemma (rejected call = identity on the model state) + correspondence/oracle against the reference log",
-             ref="7 C06"),
+             ref="8 C06"),
  "C15": dict(text="Invariant proved for every history of calls (accepted and rejected), flushes, drains and worker "
              "steps with arbitrary outcomes from a fresh store: size = sum of resident payload sizes, keys distinct "
              "and sorted, none above last; over-limit after an insert => all resident above the boundary; drained "
              "=> none at or below the boundary. Restarts are covered by correspondence only.",
              technique="Lean 4 invariant by induction over system steps + correspondence on stat/resident-set after every step",
-             ref="7 C15"),
+             ref="8 C15"),
  "C16": dict(text="Every panic site reachable from the write API is an explicit branch of the model; proved unreachable "
              "for all argument values except a log index equal to u64::MAX (known finding, witness proved). "
              "Correspondence: model must predict `panic` exactly where the code panics under catch_unwind with "
              "overflow checks on, boundary-integer argument stream.",
              technique="Lean 4 totality/invariant proof of the checked-arithmetic model + catch_unwind differential run",
-             ref="7 C16"),
+             ref="8 C16"),
  "C11": dict(text="Proved: file-name round trip / fixed length / injectivity / order-isomorphism for every u64 id (digit-list proofs, "
              "not samples); returned segment = place of the record; rotation rule; new chunk abuts and starts with the state "
              "snapshot. The byte-level journal invariant (files = head + one record per accepted write in call order) is "
              "decided by the correspondence run (dump of every record, directory listing, on-disk size) plus an "
              "implementation-only oracle over returned segments, dump, stat and dir.",
              technique="Lean 4 theorems (names, segment, rotation) + correspondence/oracle on dump, directory and segments",
-             ref="7 C11"),
+             ref="8 C11"),
  "C13": dict(text="Lock protocol proved on the model for every interleaving of open / Dump::new / drop / writes / worker steps: at "
              "most one owner, a refused attempt is the identity (no file-system event), after the owner's drop the lock is "
              "free and an attempt is not refused for it. Kernel flock semantics is an assumption; the harness exercises it "
              "with racing threads and processes (ownership witnessed by an O_EXCL marker file, refused attempts must not have "
              "touched a chunk file).",
              technique="Lean 4 invariant proof of the lock protocol + sequential correspondence + concurrent lock-race monitor",
-             ref="7 C13"),
+             ref="8 C13"),
  "C09": dict(text="Proved kernel-only: the CRC-32 bit step is a bijection, hence any one-byte substitution anywhere in a record's "
              "tag+body changes its CRC-32, the mutated frame is not the encoding of any record and no decode consumes exactly "
              "that frame; altered checksum bytes likewise. Correspondence and oracle: every byte position of complete records "
              "x bit flips on quiescent images and on a live store (read path), missing middle chunk; silent absorption outside "
              "the two recorded finding classes is a violation.",
              technique="Lean 4 theorems (CRC-32 injectivity, frame rejection) + corruption sweep with model correspondence",
-             ref="7 C09"),
+             ref="8 C09"),
  "C04": dict(text="Proved on the worker machine for every outcome sequence: a positive callback is emitted only from the sync of the "
              "last remaining file with every older file already synced (c04_ack_only_from_syncNew, c04_ack_means_synced: at "
              "that moment the only files with unsynced bytes are ones whose AppendFile announcement is still queued behind the "
@@ -100,14 +100,17 @@ CLAIMS = {
              "instance purges and flushes.",
              technique="Lean 4 termination + invariant proof for drop + gated-worker scenarios with a lock probe",
              ref="8 C14"),
- "C07": dict(text="Proved (c07_reads_partial): for every configuration incl. cache limits 0, every history of legal calls without "
-             "truncate interleaved with arbitrary flushes, drains and worker steps of any non-fatal outcome, read and iter "
-             "return exactly the reference entries: every live entry is resident or its record is completely written in a "
-             "closed chunk's file (ReadInv, built on the journal invariant); worker steps and cache limits are invisible. The "
-             "excluded class (an entry re-appended after a truncation with a log id at or below the eviction boundary) is a "
-             "recorded finding with a proved counterexample. Correspondence/oracle with small caches x worker steps x drains "
-             "x restarts x recovery images.",
-             technique="Lean 4 invariant proof (ReadInv over journal + cache + worker) + correspondence/oracle against the reference log",
+ "C07": dict(text="Proved (c07_reads_with_truncate): for every configuration incl. cache limits 0, every history of legal calls "
+             "INCLUDING truncate, interleaved with arbitrary flushes, drains and worker steps of any non-fatal outcome, in which every "
+             "appended log id is greater than every id appended earlier (AppendsFresh: a re-append after a truncation uses a higher "
+             "term), read and iter return exactly the reference entries with their original payloads: every live entry is resident or "
+             "its record is completely written in a closed chunk's file (ReadInvC7b: the journal invariant + a ghost bound on every "
+             "eviction boundary that exists or can still be published); worker steps and cache limits are invisible. "
+             "c07_reads_partial (histories without truncate) is a corollary. The excluded class (an entry re-appended after a "
+             "truncation with a log id at or below a boundary) is a recorded finding with a proved counterexample that fails "
+             "AppendsFresh. Correspondence/oracle with small caches x worker steps x drains x restarts x recovery images; restarts "
+             "are covered by the run, not by the read theorem.",
+             technique="Lean 4 invariant proof (ReadInv over journal + cache + worker, ghost bound for truncations) + correspondence/oracle against the reference log",
              ref="8 C07"),
  "C03": dict(text="Proved in full for histories that have not dropped a chunk yet (c03_crash_prefix_no_drop, c03_acked_writes_survive_no_drop): "
              "for every legal history of calls, flushes and worker steps with arbitrary outcomes (short writes, failed syncs), every crash image of the "
